@@ -423,6 +423,11 @@ func runC01(c *Ctx) {
 
 	runC01R2(c)
 	runC01Server(c)
+	// R6: with the allocator, the page holding a request (and a WRITE's data) must be filed under that request's
+	// order id, otherwise it is recycled while its bytes are still to be written to the file
+	checkPageTagging(c, "R6")
+	// R7: the count reported by the concurrent reader includes the bytes of a short last chunk
+	checkWorkerErrorDelivery(c, "R7")
 }
 
 func firstKey(t term) string {
